@@ -59,6 +59,11 @@ CLAIMED = {
             "rank lists, non-contiguous and lazily conjugated core views, requires_grad cores), all four dtypes.",
             "Trusted: torch.equal, storage pointers, the checker's dense contraction. CPU only.",
             "DESIGN.md 4/C19"),
+    "C12": ("property-based testing (Hypothesis): generated well-conditioned TT systems (SPD / Laplacian / diagonally dominant) x solver options x seeds vs. dense residual bound",
+            "Generated search over system class x order x modes x ranks x eps x preconditioner x local solver path x "
+            "initial guess x internal seed; oracle = dense residual ||Ax-b|| <= 5 eps ||b|| computed by the checker.",
+            "Trusted: checker's dense A and b. 'All seeds' is sampled; Python backend only.",
+            "DESIGN.md 4/C12"),
     "C11": ("property-based testing (Hypothesis): generated compatible operand pairs, spectra, eps, internal seeds and initial guesses vs. dense product with 3*eps bound",
             "Generated search over routine x order (1-6) x mode/rank profile x spectrum (exact-rank / decaying) x eps "
             "decade x internal seed x user initial guess x dtype, oracle = dense product from the checker's contraction, "
